@@ -139,6 +139,7 @@ def asynchronous(fmts):
 
 
 def build(tier):
+    P.contract()  # tabulated once here, inherited by every forked explorer
     hs = [
         Harness("threaded-ticks", threaded(["json", "pickle"]),
                 {"ticks": TICKS, "fault": "OSError at FS operation 0..9 of one tick | serialiser "
